@@ -328,9 +328,15 @@ class Evaluator:
         if isinstance(st, ast.Break):
             return Outcome("break", None, st)
         if isinstance(st, (ast.Assign, ast.AnnAssign)):
-            tgt = st.targets[0] if isinstance(st, ast.Assign) else st.target
             if isinstance(st, ast.Assign) and len(st.targets) != 1:
-                raise Unsupported(st)
+                # chained assignment a = b.c = value: evaluate once, store left to right
+                if not all(isinstance(t, (ast.Name, ast.Attribute)) for t in st.targets):
+                    raise Unsupported(st)
+                v = self.ev(st.value)
+                for t in st.targets:
+                    self._store(t, v, st)
+                return None
+            tgt = st.targets[0] if isinstance(st, ast.Assign) else st.target
             if isinstance(tgt, ast.Name) and st.value is not None:
                 self.env[tgt.id] = self.ev(st.value)
                 return None
@@ -342,7 +348,7 @@ class Evaluator:
                     self.env[x.id] = y
                 return None
             if isinstance(tgt, ast.Attribute) and st.value is not None:
-                self.env[ast.unparse(tgt)] = self.ev(st.value)
+                self._store(tgt, self.ev(st.value), st)
                 return None
             if isinstance(tgt, ast.Subscript) and st.value is not None:
                 base = self.ev(tgt.value)
@@ -360,11 +366,38 @@ class Evaluator:
             raise Unsupported(st)
         if isinstance(st, ast.AugAssign):
             k = st.target.id if isinstance(st.target, ast.Name) else ast.unparse(st.target) if isinstance(st.target, ast.Attribute) else None
-            if k is None or k not in self.env:
+            if k is None:
                 raise Unsupported(st)
             binop = ast.BinOp(left=st.target, op=st.op, right=st.value)
+            if k not in self.env:
+                if isinstance(st.target, ast.Attribute):
+                    self._store(st.target, self.ev(binop), st, must_exist=True)
+                    return None
+                raise Unsupported(st)
             self.env[k] = self.ev(binop)
             return None
+        raise Unsupported(st)
+
+    def _store(self, tgt: ast.expr, value: Any, st: ast.stmt, must_exist: bool = False) -> None:
+        if isinstance(tgt, ast.Name):
+            self.env[tgt.id] = value
+            return
+        if isinstance(tgt, ast.Attribute):
+            k = ast.unparse(tgt)
+            if k not in self.env:
+                try:
+                    base = self.ev(tgt.value)
+                except Unsupported:
+                    base = None
+                if isinstance(base, Obj):
+                    if must_exist and tgt.attr not in base.__dict__:
+                        raise Unsupported(st)
+                    base.__dict__[tgt.attr] = value
+                    return
+                if must_exist:
+                    raise Unsupported(st)
+            self.env[k] = value
+            return
         raise Unsupported(st)
 
     def _loop(self, st: ast.For, seq: Any, pair: bool = False) -> Optional[Outcome]:
